@@ -60,13 +60,15 @@ structure RoundFacts (m : Mol) (r : Round) : Prop where
   atomsVis : fatoms r.smi = r.visited
   visNodup : r.visited.Nodup
   tokVis : ∀ k ∈ r.tokens.map (·.1), k ∈ r.visited
+  bondsPerm : (fbonds r.smi).Perm (treeP r.edges)
 
 theorem RoundDfs.facts {m : Mol} {S : List Nat} {c0 c1 : Nat} {r : Round} (hwf : m.WF = true) (h : RoundDfs m S c0 c1 r) :
     RoundFacts m r := by
   obtain ⟨d, hd, e1, e2, e3, _⟩ := h.ex
-  refine ⟨e3 ▸ hd.cycFacts hwf, ?_, e1 ▸ hd.inv.visNodup, ?_⟩
+  refine ⟨e3 ▸ hd.cycFacts hwf, ?_, e1 ▸ hd.inv.visNodup, ?_, ?_⟩
   · rw [h.smi, e2, hd.atoms, e1]
   · rw [e3, e1]; exact hd.tokVis
+  · rw [h.smi, e2]; exact hd.bonds
 
 theorem RoundFacts.closureAtoms_nodup {m : Mol} {r : Round} (h : RoundFacts m r) : (closureAtoms r.smi r.tokens).Nodup := by
   rw [closureAtoms_eq_filter, h.atomsVis]
